@@ -11,3 +11,11 @@ chk("C18","model_checking",
  "explicit-state BFS over the real EventIdGenerator under an injected clock (all delta/burst/restart action sequences to the depth bound, canonical state = generator fields relative to the clock) plus end-to-end id stability/monotonicity on exhaustive short histories under three clock scripts",
  "wall clock owned by interposing clock_gettime; sched_yield advances the injected clock so the spin-wait terminates",
  "explicit-state search of the real transition function + bounded exhaustive histories","unitx+histx","DESIGN.md §3 C18")
+chk("C02","exploration",
+ "product-mode enumeration on the real engine: data multisets x 10 storage layouts (memory, L0 x1/xn, L1, L2, mixed, WAL-recovered, segment-recovered) x configurations x a predicate alphabet; each answer is compared with a reference evaluator and with the same query's answer in every other layout",
+ "reference semantics written from the documentation; null-dependent predicates judged by cross-layout agreement only; one pinned hash seed; known findings are exact cases with committed digests (known/C02.*.json)",
+ "bounded exhaustive enumeration of data x layout x query against a reference model and a cross-layout differential oracle","histx product mode","DESIGN.md §2.5 §3 C02")
+chk("C19","fault_enumeration",
+ "every combination of WAL contents, eligible set, per-file archive fault and archive-directory fault up to n logs is set up on a real file system and run through the real WalCleaner (conservative mode) and WalArchiveRecovery; deleted files and recovered entries are compared with the original lines",
+ "faults realised as type clashes (root ignores permission bits); configured directories as in production",
+ "exhaustive fault-pattern enumeration against the real component","unitx","DESIGN.md §3 C19")
